@@ -420,6 +420,41 @@ func ResultAlgebra(p *core.Prog, r *core.Report) {
 				continue
 			}
 			r.OK(rule, fn+":dedupe-compare", p.Pos(cmp.Pos()), "e.Error() compared with the Error() of every element of r."+fld)
+			// the comparison is made for every element of the list: inside the search loop nothing but the loop's
+			// own condition decides whether it is evaluated (no `continue` on some other criterion before it)
+			{
+				var inner map[*ssa.BasicBlock]bool
+				for _, loop := range allLoopsOf(f) {
+					if loop[cmp.Block()] && (inner == nil || len(loop) < len(inner)) {
+						inner = loop
+					}
+				}
+				skipped := ""
+				if inner != nil {
+					var header *ssa.BasicBlock
+					for b := range inner {
+						dom := true
+						for o := range inner {
+							if !b.Dominates(o) {
+								dom = false
+							}
+						}
+						if dom {
+							header = b
+						}
+					}
+					for _, cd := range core.ControlConds(cmp.Block()) {
+						if inner[cd.If.Block()] && cd.If.Block() != header && !cmp.Block().Dominates(cd.If.Block()) {
+							skipped = p.Pos(cd.Value.Pos())
+						}
+					}
+				}
+				if skipped != "" {
+					r.Bad(rule, fn+":dedupe-every-element", p.Pos(cmp.Pos()), "some elements of r."+fld+" are skipped by the duplicate search before their text is compared (condition at "+skipped+"): a message whose text is already present can be added a second time")
+				} else {
+					r.OK(rule, fn+":dedupe-every-element", p.Pos(cmp.Pos()), "the text comparison is evaluated for every element the search loop visits")
+				}
+			}
 			// the deciding condition of the append: the innermost If whose false/true edge leads to it
 			var decide ssa.Value
 			for _, c := range core.CondsAt(st.Block()) {
